@@ -1077,52 +1077,6 @@ func (it *sortedMapIter) next() tuple {
 	return []value{false, nil, nil}
 }
 
-// ---- model channels (run-to-completion goroutine model) ----
-
-// mchan is an unbounded FIFO: a goroutine body runs to completion at its `go`
-// statement, so a producer fills the queue before its consumer runs.
-type mchan struct {
-	buf      []value
-	closed   bool
-	capacity int
-}
-
-func (c *mchan) send(v value) {
-	if c == nil {
-		unsupported("send on nil channel blocks forever")
-	}
-	if c.closed {
-		panic(rtErr{"send on closed channel"})
-	}
-	c.buf = append(c.buf, v)
-}
-
-func (c *mchan) recv() (value, bool) {
-	if c == nil {
-		unsupported("receive from nil channel blocks forever")
-	}
-	if len(c.buf) > 0 {
-		v := c.buf[0]
-		c.buf = c.buf[1:]
-		return v, true
-	}
-	if c.closed {
-		return nil, false
-	}
-	// (the scheduler only lets a receiver continue when something can be received)
-	panic(pathAbort{"budget", "receive on an open, empty channel: the receiver blocks forever"})
-}
-
-func (c *mchan) close() {
-	if c == nil {
-		panic(rtErr{"close of nil channel"})
-	}
-	if c.closed {
-		panic(rtErr{"close of closed channel"})
-	}
-	c.closed = true
-}
-
 // ---- abstract byte slices with symbolic length (no element access) ----
 
 // symSlice is a []byte whose length is a symbolic integer: only len, cap,
